@@ -302,6 +302,20 @@ def build_ops():
         A.add_particles(**given)
         M.recs.extend(M.new_recs(2, given))
 
+    @op('add2_x_only', enabled=lambda w, m: 'x' in m[0].meta)
+    def _(w, m, k):
+        # no tag given: the new particles carry the default tag
+        A, M = w[0], m[0]
+        given = dict(x=[3000. + k, 3001. + k])
+        A.add_particles(**given)
+        M.recs.extend(M.new_recs(2, given))
+
+    @op('redeclare_tag_default_ghost', enabled=lambda w, m: nA(w, m) == 0)
+    def _(w, m, k):
+        # an (empty) array whose default tag is not Local
+        w[0].add_property('tag', type='int', default=GHOST)
+        m[0].add_prop('tag', 'int', GHOST, None, 1)
+
     @op('add1_ghost_tagonly')
     def _(w, m, k):
         A, M = w[0], m[0]
@@ -489,8 +503,11 @@ def build_ops():
         w[0].add_property('x', data=data)
         m[0].add_prop('x', 'double', None, data, 1)
 
+    # (add_property documents that particles created through it are not
+    #  aligned: with a default tag that is not Local the op is not offered)
     @op('addprop_data_on_empty', aligns=True,
-        enabled=lambda w, m: nA(w, m) == 0 and hasnt('np5')(w, m))
+        enabled=lambda w, m: nA(w, m) == 0 and hasnt('np5')(w, m) and
+        m[0].meta['tag'][2] == LOCAL)
     def _(w, m, k):
         data = [1., 2.]
         w[0].add_property('np5', data=data)
@@ -710,7 +727,7 @@ ALIGNING = {'extend1_align', 'extend2_align', 'shrink1_align',
             'retag_first_2_align', 'retag_last_0_align', 'retag_all_1_align',
             'retag_mid_2_align', 'set_tag_api_first_ghost'}
 # ops that align when they add / remove at least one particle
-ALIGNING_IF_CHANGED = {'add1_all', 'add2_subset_mixed_tags',
+ALIGNING_IF_CHANGED = {'add1_all', 'add2_subset_mixed_tags', 'add2_x_only',
                        'add1_ghost_tagonly', 'remove_first', 'remove_last',
                        'remove_firstlast', 'remove_all', 'remove_mid',
                        'remove_tagged_0', 'remove_tagged_2', 'append_B'}
@@ -763,7 +780,15 @@ def _expand(args):
     out = []
     ops = ops_table()
     w, m, err = replay_history(init, hist)
-    assert err is None, (hist, err)
+    if err is not None:
+        # this history agreed with the model when it was first explored and
+        # does not when it is replayed: the implementation is not a function
+        # of the operations (uninitialised storage)
+        k, ekey, what = err
+        return hist[:-1], [(hist[-1], None,
+                            (k, 'not-reproducible:' + ekey,
+                             'a history that agreed with the model when '
+                             'first run differs when replayed: ' + what))]
     enabled = [o.name for o in ops if o.enabled(w, m)]
     for name in enabled:
         h2 = hist + [name]
